@@ -51,6 +51,10 @@ static void *fw(void *a){ (void)a; atomic_fetch_add(&forever_waiting,1); dispatc
 static void on_usr1(int s){ (void)s; }
 static pthread_t cth[64]; static int ncth; static atomic_int pinger_stop;
 static void *pinger(void *a){ (void)a; while(!atomic_load(&pinger_stop)){ for(int i=0;i<ncth;i++) pthread_kill(cth[i],SIGUSR1); usleep(300); } return 0; }
+// no call returned for 20 s while clients are still inside their loops: a wait with a finite timeout never returned, or a permit was lost
+static atomic_int wd_off;
+static void *watchdog(void *a){ (void)a; long last=-1; int same=0; for(;;){ usleep(200000); if(atomic_load(&wd_off)) return 0; long d=atomic_load(&okw)+atomic_load(&tmo)+atomic_load(&sigDone);
+  if(d==last) same++; else same=0; last=d; if(same>=100){ printf("STUCK no dispatch_semaphore_wait / signal call returned for 20 s (a timed wait never came back, or a waiter was never released): successes %ld timeouts %ld signals %ld\n",atomic_load(&okw),atomic_load(&tmo),atomic_load(&sigDone)); fflush(stdout); _exit(3); } } return 0; }
 int main(int argc, char **argv){
   seed = argc>1 ? strtoull(argv[1],0,0) : 1; int nthr = argc>2 ? atoi(argv[2]) : 4; nops = argc>3 ? atoi(argv[3]) : 300; init = argc>4 ? atol(argv[4]) : 2;
   evs = calloc(MAXEV, sizeof(ev_t)); S = dispatch_semaphore_create(init);
@@ -58,7 +62,9 @@ int main(int argc, char **argv){
   struct sigaction sa; memset(&sa,0,sizeof sa); sa.sa_handler=on_usr1; sigaction(SIGUSR1,&sa,0);
   for (long i=0;i<nthr;i++) pthread_create(&cth[i],0,client,(void*)i);
   ncth=nthr; pthread_t pg; int ping = argc>5 ? atoi(argv[5]) : 1; if(ping) pthread_create(&pg,0,pinger,0);
+  pthread_t wd; pthread_create(&wd,0,watchdog,0);
   while(atomic_load(&clients_done)<nthr) usleep(500);
+  atomic_store(&wd_off,1);
   atomic_store(&pinger_stop,1); if(ping) pthread_join(pg,0); ncth=0; atomic_store(&clients_release,1);
   for (int i=0;i<nthr;i++) pthread_join(cth[i],0);
   // conservation: drain what is left by polling
